@@ -308,7 +308,7 @@ def dvh_explore(profile, seed_from, seed_to, out_prefix, chunks, threads=12, tim
     return sorted(glob.glob(out_prefix + ".*.ndjson"))
 
 
-TRACE_CFG_CONSTANTS = {"SecMs": 1000, "MinAckSec": 10, "MaxModSec": 600, "Slack": 999, "Gran": 1, "MinWait": 1000, "Prompt": 1000}
+TRACE_CFG_CONSTANTS = {"SecMs": 1000, "MinAckSec": 10, "MaxModSec": 600, "Slack": 999, "Gran": 1, "MinWait": 1000, "Prompt": 1000, "WaitLimit": 300000}
 TRACE_INVARIANTS = ["Inv_C01", "Inv_C02", "Inv_C03", "Inv_C09", "Inv_C10", "Inv_C11", "Summary"]
 
 LINE_RE = re.compile(r'^<<"(VIOL|DRIFT|SUMMARY|STUCK)", "(.*)">>$')
